@@ -423,7 +423,7 @@ func TestC11(t *testing.T) {
 	c.Rule("gocall: the signatures, arguments and reference of `calls` (0-3 fixed parameters, variadic tail half of the time, spread half of the time, 15% wrong counts) with the call launched by the go statement, through the routes name / variable / map member / parenthesised; the recording host hands its parameters to the oracle over a channel; judged when the reference says the call succeeds: no error, the host is invoked (waited for, 20 s before 'never') with exactly the planned parameters; all cases non-trivial")
 	h.Run(c, "gocall", c.N(2500, 12000), genGoCallCase, goCallOracle)
 	c.Rule("vcallbacks: script function passed where a MakeFunc host expects a VARIADIC func type func(T1..Tk, ...E) [interface{} | int64], k = 0-3, E = int64 / string / interface{} (70%) or any pool type; directly, as second parameter, bound to a variable first, or as the element of a []func parameter; the host invokes it 1-3 times with 0, 1 or several (up to 4) variadic arguments, written one by one or handed over as a slice (f(a, xs...)); the script function is variadic from the same position (60%), from an earlier position (30%) or not variadic (10%: only its fixed parameters are judged); it reports its parameters to a Go recorder and returns nothing, its variadic list, the length of that list, or throws; all cases non-trivial")
-	h.Run(c, "vcallbacks", c.N(1, 40000), genVCbCase, vcbOracle)
+	h.Run(c, "vcallbacks", c.N(9000, 40000), genVCbCase, vcbOracle)
 	c.Rule("liveargs: a Go function (recording MakeFunc host reached by name / variable / map member / deferred, or a pointer-receiver method with interface{} parameters; fixed or variadic, plain or with a spread last argument) called with 2-4 argument expressions over 1-2 places (element of a bound or script-made typed slice, element of a bound []interface{}, field of a bound *S, field of an element of a bound []S, dereferenced bound pointer; controls: variable, script list element, map entry): an argument reads a place, calls a script function or a Go function that overwrites a place and returns a number (or a list that is spread), or is a literal; parameter types are the value's own type, interface{}, or a converting type; reference: one left-to-right walk over the list; non-trivial = some place is read and overwritten by a later argument (80% by construction)")
-	h.Run(c, "liveargs", c.N(1, 30000), genLiveCase, liveOracle)
+	h.Run(c, "liveargs", c.N(7000, 30000), genLiveCase, liveOracle)
 }
